@@ -25,7 +25,7 @@ REL = gh.RUST_REL
 LABEL = f"{REL}::generate_property"
 
 ASSUMED = [
-    "rust get_type_name is a function of the type definition and the truthiness of `optional` (its Option rule is checked on every field of lib.rs by the item table, and on evolved models by C06)",
+    "rust get_type_name is a function of the type definition and of `optional or is_special(type)` (its Option rule is checked on every field of lib.rs by the item table, and on evolved models by C06)",
     "rust to_snake_case is a function str -> str (its camelCase image is table-checked on every committed name)",
     "rust _get_doc returns lines starting with '///'",
     "rust generate_extras returns lines starting with '#[cfg(' or '#[deprecated'",
@@ -49,6 +49,7 @@ def build():
     ns = world.namespaces["mod"]
     world.declare_global("(declare-fun uf_to_snake_case (String) String)")
     world.declare_global("(declare-fun uf_rust_type_name (Int Bool) String)")
+    world.declare_global("(declare-fun uf_is_special (Int) Bool)")
 
     def ext(name, params, spec, note):
         q = f"assumed::{name}"
@@ -58,7 +59,9 @@ def build():
     def s_type_name(c, a):
         t = force(c, a["type_def"])
         opt = interp.truth_term(c, a["optional"]) if "optional" in a else FALSE
-        return SReturn(VStr(f"(uf_rust_type_name {t.oid} {opt})"))
+        # get_type_name wraps in Option when `optional` is truthy or the type itself is null-admitting (its own rule, assumed): the result
+        # depends on the type and on that disjunction only, so a caller may hand over `optional` or `optional or is_special(type)`
+        return SReturn(VStr(f"(uf_rust_type_name {t.oid} {Or(opt, f'(uf_is_special {t.oid})')})"))
 
     def s_doc(c, a):
         g = c.declare("docline", "String")
@@ -76,7 +79,10 @@ def build():
     ext("generate_extras", [("type_def", ["other"])], s_extras, ASSUMED[3])
     fp = world.functions.get(f"{REL}::is_special_property")
     if fp is not None:
-        fp.contract = Contract("is_special_property", [("prop_def", [("obj", "Property")])], lambda c, a: TRUE, lambda c, a: SReturn(VBool(c.declare("prop_is_special", "Bool"))), "is_special of the property's type")
+        fp.contract = Contract("is_special_property", [("prop_def", [("obj", "Property")])], lambda c, a: TRUE, lambda c, a: SReturn(VBool(f"(uf_is_special {force(c, interp.getattr(c, a['prop_def'], 'type')).oid})")), "is_special of the property's type")
+    fs = world.functions.get(f"{REL}::is_special")
+    if fs is not None:
+        fs.contract = Contract("is_special", [("type_def", [("obj", "TypeDef")])], lambda c, a: TRUE, lambda c, a: SReturn(VBool(f"(uf_is_special {force(c, a['type_def']).oid})")), "null-admitting `or` / `tuple` (proved separately in the same run)")
     return world, interp
 
 
@@ -102,7 +108,7 @@ def report():
         pname = force(c, interp.getattr(c, p, "name")).t
         opt = interp.truth_term(c, interp.getattr(c, p, "optional"))
         t = force(c, interp.getattr(c, p, "type"))
-        want_type = f"(uf_rust_type_name {t.oid} {opt})"
+        want_type = f"(uf_rust_type_name {t.oid} {Or(opt, f'(uf_is_special {t.oid})')})"
         snake = f"(uf_to_snake_case {pname})"
         is_kw = Or(*[Eq(snake, k) for k in keywords])
         field = smt.Concat(smt.sstr("pub "), snake, smt.sstr(": "), want_type, smt.sstr(","))
